@@ -7,8 +7,7 @@ functions and a ``build()`` function that uses ``State`` objects,
 the machine.
 """
 
-import keyword
-from typing import Any, Dict, List, Optional, Set
+from typing import Any, Dict, List, Optional, Set, Tuple
 
 from ..builders import render_functional_build
 from ..extractor import extract_events
@@ -23,7 +22,8 @@ from ._shared import (
     generate_imports,
     generate_logger_setup,
     generate_section_header,
-    snake_case_name,
+    logic_decorator,
+    logic_function_names,
 )
 
 
@@ -73,6 +73,9 @@ class PythonicFunctionalStrategy(BaseStrategy):
             parts.append(
                 self._generate_component(
                     items=ctx.actions,
+                    names=logic_function_names(
+                        ctx.actions, ctx.guards, ctx.services
+                    ),
                     component_type="action",
                     is_async=ctx.is_async,
                     log=ctx.log,
@@ -84,6 +87,9 @@ class PythonicFunctionalStrategy(BaseStrategy):
             parts.append(
                 self._generate_component(
                     items=ctx.guards,
+                    names=logic_function_names(
+                        ctx.actions, ctx.guards, ctx.services
+                    ),
                     component_type="guard",
                     is_async=ctx.is_async,
                     log=ctx.log,
@@ -95,6 +101,9 @@ class PythonicFunctionalStrategy(BaseStrategy):
             parts.append(
                 self._generate_component(
                     items=ctx.services,
+                    names=logic_function_names(
+                        ctx.actions, ctx.guards, ctx.services
+                    ),
                     component_type="service",
                     is_async=ctx.is_async,
                     log=ctx.log,
@@ -429,6 +438,7 @@ class PythonicFunctionalStrategy(BaseStrategy):
     @staticmethod
     def _generate_component(
         items: Set[str],
+        names: Dict[Tuple[str, str], str],
         component_type: str,
         is_async: bool,
         log: bool,
@@ -452,12 +462,12 @@ class PythonicFunctionalStrategy(BaseStrategy):
         )
 
         for original in sorted(items):
-            fn_name = snake_case_name(original)
-            if keyword.iskeyword(fn_name):
-                fn_name = f"{fn_name}_"
+            fn_name = names[(component_type, original)]
 
             # -- decorator --------------------------------------------
-            code_lines.append(f"@{component_type}")
+            code_lines.append(
+                logic_decorator(component_type, original, fn_name)
+            )
 
             # -- signature (no self) ----------------------------------
             async_kw = (
@@ -601,15 +611,24 @@ class PythonicFunctionalStrategy(BaseStrategy):
         if not machine.id:
             machine.id = ctx.machine_id
 
+        fn_names = logic_function_names(
+            ctx.actions, ctx.guards, ctx.services
+        )
         logic_args: List[str] = []
         if ctx.actions:
-            names = ", ".join(sorted(snake_case_name(a) for a in ctx.actions))
+            names = ", ".join(
+                sorted(fn_names[("action", a)] for a in ctx.actions)
+            )
             logic_args.append(f"actions=[{names}]")
         if ctx.guards:
-            names = ", ".join(sorted(snake_case_name(g) for g in ctx.guards))
+            names = ", ".join(
+                sorted(fn_names[("guard", g)] for g in ctx.guards)
+            )
             logic_args.append(f"guards=[{names}]")
         if ctx.services:
-            names = ", ".join(sorted(snake_case_name(s) for s in ctx.services))
+            names = ", ".join(
+                sorted(fn_names[("service", s)] for s in ctx.services)
+            )
             logic_args.append(f"services=[{names}]")
 
         return "\n" + render_functional_build(
